@@ -145,3 +145,11 @@ func (p *Partition) sectorsToBytes(sectors uint32) int64 {
 	size := uint64(p.GetSize())
 """, 2)]},
 ]
+
+# --- third session
+SEEDS += [
+ {"name": "c13-mbr-bound-compared-in-sectors", "properties": ["C13", "C03"], "expect": "|size test dominates WriteAt",
+  "edits": [e("partition/mbr/partition.go", "		if tmpTotal > uint64(size) {", "		if tmpTotal/uint64(lss) > uint64(p.Size) {")]},
+ {"name": "c13-gpt-zero-chunk-counted-not-written", "properties": ["C13"], "expect": "C13-b|",
+  "edits": [e("partition/gpt/partition.go", "		if read > 0 {\n			var written int", "		if read > 0 && b[0] == 0 && b[read-1] == 0 {\n			total += uint64(read)\n		} else if read > 0 {\n			var written int")]},
+]
